@@ -32,6 +32,12 @@ func replayMode(r *common.Run, sk *sink) {
 		runRestartDuringSend(r, sk, c, r.Rand("restart-during-send", c), r.SubSeed("restart-during-send-seed", c))
 		r.Flush()
 	}
+	// directed: a replica is stopped and started again on its running NodeHost while its snapshot
+	// worker is busy (a snapshot being saved, older ones being removed)
+	for _, c := range r.MyCases(r.Pick(4, 32)) {
+		runRestartDuringSave(r, sk, c, r.Rand("restart-during-save", c), r.SubSeed("restart-during-save-seed", c))
+		r.Flush()
+	}
 	// directed: snapshots requested by the user whose compaction index lies below the one of the
 	// snapshot before (a larger CompactionOverhead, an explicit lower CompactionIndex)
 	for _, c := range r.MyCases(r.Pick(4, 32)) {
@@ -457,4 +463,107 @@ func runRestartDuringSend(r *common.Run, sk *sink, caseNo int, rng *rand.Rand, s
 	}
 	replayCheck(c, sk, shardID, replicas, caseNo, "after-restart-during-send")
 	r.Case(sending && converged, common.Hash("restart-during-send", caseNo, kind.String(), store.String()))
+}
+
+// runRestartDuringSave: StopShard + StartReplica on a running NodeHost, 100 times in a row, each time
+// right after a snapshot was requested (the previous incarnation's snapshot worker may still be
+// saving it and removing older snapshot directories when the next incarnation runs its start-up
+// cleanup). Nothing may crash; every replica must equal the replay of the committed log.
+func runRestartDuringSave(r *common.Run, sk *sink, caseNo int, rng *rand.Rand, seed int64) {
+	kind := []cluster.SMKind{cluster.Regular, cluster.Concurrent, cluster.OnDisk}[rng.Intn(3)]
+	store := cluster.Pebble
+	if rng.Intn(3) == 0 {
+		store = cluster.Tan
+	}
+	fmt.Printf("restart-during-save case %d sm %s store %s\n", caseNo, kind, store)
+	c := cluster.NewCluster(cluster.Options{Hosts: 3, Seed: seed, RTTMs: 5, Store: store,
+		SMOpt: func(uint64, uint64) cluster.SMOptions {
+			return cluster.SMOptions{Kind: kind, RecordApply: true, SlowSave: time.Duration(rng.Intn(3)) * time.Millisecond}
+		}}, sk)
+	const shardID = 1
+	if err := c.StartAll(); err != nil {
+		r.Inconclusive(fmt.Sprintf("restart-during-save case %d: start failed: %v", caseNo, err))
+		return
+	}
+	defer c.StopAll()
+	members := c.Members(3)
+	replicas := map[uint64]int{1: 0, 2: 1, 3: 2}
+	shardCfg := func(i int) config.Config {
+		cfg := cluster.ShardConfig(shardID, uint64(i+1))
+		cfg.SnapshotEntries, cfg.CompactionOverhead = 5, 1
+		return cfg
+	}
+	for i := 0; i < 3; i++ {
+		if err := c.Hosts[i].StartReplica(members, false, kind, shardCfg(i)); err != nil {
+			r.Inconclusive(fmt.Sprintf("restart-during-save case %d: %v", caseNo, err))
+			return
+		}
+	}
+	if !waitFor(15*time.Second, func() bool { return c.LeaderHost(shardID, replicas) >= 0 }) {
+		r.Inconclusive(fmt.Sprintf("restart-during-save case %d: no leader", caseNo))
+		return
+	}
+	var stopFlag int32
+	var wg sync.WaitGroup
+	wg.Add(1)
+	go func() {
+		defer wg.Done()
+		prng := rand.New(rand.NewSource(seed + 9))
+		for atomic.LoadInt32(&stopFlag) == 0 {
+			if nh := c.Hosts[prng.Intn(3)].NodeHost(); nh != nil {
+				ctx, cancel := context.WithTimeout(context.Background(), 200*time.Millisecond)
+				_, _ = nh.SyncPropose(ctx, nh.GetNoOPSession(shardID), cluster.MakeCmd(byte(prng.Intn(2)), cluster.NewID()))
+				cancel()
+			}
+		}
+	}()
+	// snapshots requested all the time on every host
+	wg.Add(1)
+	go func() {
+		defer wg.Done()
+		prng := rand.New(rand.NewSource(seed + 11))
+		for atomic.LoadInt32(&stopFlag) == 0 {
+			if nh := c.Hosts[prng.Intn(3)].NodeHost(); nh != nil {
+				if rs, err := nh.RequestSnapshot(shardID, dragonboat.SnapshotOption{}, time.Second); err == nil {
+					<-rs.ResultC()
+					rs.Release()
+				}
+			}
+			time.Sleep(time.Duration(prng.Intn(2000)) * time.Microsecond)
+		}
+	}()
+	restarts := 0
+	for i := 0; i < 100; i++ {
+		hi := rng.Intn(3)
+		h := c.Hosts[hi]
+		nh := h.NodeHost()
+		if nh == nil {
+			continue
+		}
+		if rs, err := nh.RequestSnapshot(shardID, dragonboat.SnapshotOption{}, time.Second); err == nil {
+			go func() { <-rs.ResultC(); rs.Release() }()
+		}
+		time.Sleep(time.Duration(rng.Intn(4)) * time.Millisecond)
+		if nh.StopShard(shardID) != nil {
+			continue
+		}
+		for try := 0; try < 400; try++ {
+			if h.RestartReplica(members, kind, shardCfg(hi)) == nil {
+				restarts++
+				break
+			}
+			time.Sleep(2 * time.Millisecond)
+		}
+		time.Sleep(time.Duration(10+rng.Intn(40)) * time.Millisecond)
+	}
+	atomic.StoreInt32(&stopFlag, 1)
+	wg.Wait()
+	sk.Count("restart_during_save_in_process_restarts", int64(restarts))
+	converged := waitFor(30*time.Second, func() bool { return sameState(c, shardID, replicas) })
+	if !converged {
+		sk.Count("not_converged_after_heal", 1)
+		r.Inconclusive(fmt.Sprintf("restart-during-save case %d: replicas did not reach equal state within 30s", caseNo))
+	}
+	replayCheck(c, sk, shardID, replicas, caseNo, "after-restart-during-save")
+	r.Case(restarts >= 20 && converged, common.Hash("restart-during-save", caseNo, kind.String(), store.String(), restarts))
 }
